@@ -378,6 +378,6 @@ def run_shard(ctx):
                                 nshards=ctx.nshards, deadline_s=dl(0.5))
     stats.extra["exhaustive_sequences"] = stats.evaluations
     stats.extra["small_scope_complete"] = bool(complete)
-    core.hyp_search(strategy(thorough), ex, stats, max_examples=2500 if thorough else 200,
+    core.hyp_search(strategy(thorough), ex, stats, max_examples=10000 if thorough else 200,
                     seed=core.hash64(ctx.seed, ID, ctx.shard), findings=ctx.findings, deadline_s=dl(1.0))
     return stats
